@@ -1,0 +1,46 @@
+//go:build verif
+
+// Package verifhook holds verification-only call-outs (build tag "verif").
+package verifhook
+
+import (
+	"sync/atomic"
+	"time"
+)
+
+var (
+	backoffFn atomic.Value // func(time.Duration) bool
+	yieldFn   atomic.Value // func(string)
+)
+
+// SetBackoff installs (or, with nil, removes) the observer of retry waits.
+// When the observer returns true the wait itself is skipped.
+func SetBackoff(f func(time.Duration) bool) {
+	if f == nil {
+		f = func(time.Duration) bool { return false }
+	}
+	backoffFn.Store(f)
+}
+
+// SetYield installs (or, with nil, removes) the schedule controller.
+func SetYield(f func(string)) {
+	if f == nil {
+		f = func(string) {}
+	}
+	yieldFn.Store(f)
+}
+
+// Backoff reports a computed retry wait to the observer.
+func Backoff(d time.Duration) bool {
+	if f, ok := backoffFn.Load().(func(time.Duration) bool); ok {
+		return f(d)
+	}
+	return false
+}
+
+// Yield calls the schedule controller at a named point.
+func Yield(point string) {
+	if f, ok := yieldFn.Load().(func(string)); ok {
+		f(point)
+	}
+}
